@@ -172,6 +172,9 @@ WorldChecks(w) ==
   \* an identifier resolves to the row its slot points at: the storage-level reading of C02
   /\ Chk("C02", "identifier-location-points-at-another-row",
          (SlotToRow(d) /\ RowToSlot(d)) \/ PreBroken(w, 3) \/ PreBroken(w, 4))
+  \* lookup tables and locations must not outlive the identifier buffers they point at (C05)
+  /\ Chk("C05", "reference-to-freed-identifier-buffer",
+         (LookupTargets(d) /\ \A i \in Active(d) : Slot(d, i).t >= 0) \/ PreBroken(w, 12))
   /\ Chk("C13", "len-vs-dump", d.len = wo.len)
   /\ Chk("C13", "stored-ids=public-ids", StoredIds(d) = DOMAIN ents)
   /\ Chk("C13", "accepted-ids=public-ids", AcceptedIds(d) = DOMAIN ents)
@@ -539,8 +542,12 @@ StrictNext ==
     [] E.op = "clone_from" -> WS!CloneFrom(s, PreStore(E.src))
     [] OTHER -> s
 DriftTarget == IF E.op \in {"clone", "serde"} THEN E.dst ELSE E.w
+(* the strict model is only defined on well-formed stores: once a world's structure is broken (which
+   is reported by the operation that breaks it) the comparison is skipped for that world *)
+PreWellFormed(w) == ~PreWs[w].live \/ StoreInvHolds(PreWs[w].dump)
 DriftChecks ==
   IF E.op \in {"reset", "drop", "panicked", "deser_mut", "deser_struct"} THEN TRUE
+  ELSE IF ~PreWellFormed(E.w) \/ (E.op = "clone_from" /\ ~PreWellFormed(E.src)) THEN TRUE
   ELSE IF E.op = "clone" THEN Chk("DRIFT", "strict-model-disagrees", PostWs[E.dst].live => ShapeEq(PostStore(E.dst), WS!CloneOf(PreStore(E.w))))
   ELSE IF E.op = "serde" THEN Chk("DRIFT", "strict-model-disagrees", (E.res.ok /\ PostWs[E.dst].live) => ShapeEq(PostStore(E.dst), WS!SerDeOf(PreStore(E.w))))
   ELSE Chk("DRIFT", "strict-model-disagrees", PostWs[E.w].live => ShapeEq(PostStore(E.w), StrictNext))
@@ -550,6 +557,9 @@ DriftChecks ==
    verdict and, if accepted, the resulting store are predicted by Serde.tla from the previous dump. *)
 SD == INSTANCE Serde WITH NComp <- 9
 OpDeserStruct ==
+  IF ~StoreInvHolds(PreWs[E.w].dump)
+  THEN issued' = [issued EXCEPT ![E.dst] = IF PostWs[E.dst].live THEN DOMAIN Ents(PostWs[E.dst]) ELSE {}]
+  ELSE
   LET d == PreWs[E.w].dump
       order == [k \in DOMAIN d.tables |-> d.tables[k].bits]
       x == SD!ApplyMuts(SD!Encode(PreStore(E.w), order), E.muts)
